@@ -268,6 +268,71 @@ theorem add_upvalue_tie (index : BitVec 8) (isLocal : Bool) (ups : List RUpvalue
       refine ⟨ups ++ [(index, isLocal)], cnt + 1, rfl, ?_⟩
       simp [decUp]
 
+/-! ### declaring and initialising a local (`Compiler::add_local`, `mark_initialised`, `mark_last_initialised`) -/
+
+/-- `add_local` refuses at 256 locals and otherwise appends an UNINITIALISED, uncaptured local of that name - exactly the reference
+parser's `addLocal` (`localsMax`, `push { name, depth := none }`). -/
+theorem add_local_spec (ls : List RLocal) (name : String) :
+    Fns.compiler_add_local ls name =
+      .ok (if ls.length = 256 then (false, ls) else (true, ls ++ [(name, none, false)])) := by
+  unfold Fns.compiler_add_local Rs.len
+  by_cases h : ls.length = 256
+  · have : ((ls.length : Int) = 256) := by omega
+    simp [h]
+  · have : ¬ ((ls.length : Int) = 256) := by omega
+    simp [h, this]
+
+theorem add_local_matches_reference (ls : List RLocal) (name : String) :
+    (256 = localsMax) ∧
+    ((ls ++ [(name, none, false)]).map decLocal).toArray = ((ls.map decLocal).toArray).push { name := name, depth := none } := by
+  constructor
+  · rfl
+  · simp [decLocal]
+
+/-- `mark_initialised(i)` gives local `i` the current scope depth and touches nothing else; an index outside the list is a panic
+(the reference parser's `markInitialisedAt` leaves the list alone there; the compiler only ever passes the index of a local it has
+just declared). -/
+theorem mark_initialised_spec (ls : List RLocal) (i : Nat) (depth : Int) (r : RLocal) (h : ls[i]? = some r) :
+    Fns.compiler_mark_initialised (i : Int) ls depth = .ok ((), ls.set i (r.1, some depth, r.2.2)) := by
+  unfold Fns.compiler_mark_initialised Rs.modifyIdx
+  have : ¬ ((i : Int) < 0) := by omega
+  simp [this, h, Rs.M.bind]
+
+theorem mark_initialised_out_of_range (ls : List RLocal) (i : Nat) (depth : Int) (h : ls.length ≤ i) :
+    Fns.compiler_mark_initialised (i : Int) ls depth = .panic := by
+  unfold Fns.compiler_mark_initialised Rs.modifyIdx
+  have : ¬ ((i : Int) < 0) := by omega
+  have hn : ls[i]? = none := List.getElem?_eq_none h
+  simp [this, hn, Rs.M.bind]
+
+/-- `mark_last_initialised` does the same for the local declared last. -/
+theorem mark_last_initialised_spec (ls : List RLocal) (r : RLocal) (depth : Int) :
+    Fns.compiler_mark_last_initialised (ls ++ [r]) depth = .ok ((), ls ++ [(r.1, some depth, r.2.2)]) := by
+  unfold Fns.compiler_mark_last_initialised Rs.modifyLast
+  simp [Rs.M.bind]
+
+/-- Declared, then initialised: from then on `resolve_local` finds it (and it shadows every earlier local of that name). -/
+theorem declared_then_initialised_is_found (ls : List RLocal) (name : String) (depth : Int) (hlen : ls.length < 256) :
+    ∃ ls1 ls2, Fns.compiler_add_local ls name = .ok (true, ls1) ∧
+      Fns.compiler_mark_last_initialised ls1 depth = .ok ((), ls2) ∧
+      Fns.compiler_resolve_local ls2 name = .ok (.ok (Rs.bvOfInt 8 (ls.length : Int))) := by
+  refine ⟨ls ++ [(name, none, false)], ls ++ [(name, some depth, false)], ?_, ?_, ?_⟩
+  · rw [add_local_spec]; have : ls.length ≠ 256 := by omega
+    simp [this]
+  · exact mark_last_initialised_spec ls (name, none, false) depth
+  · let c : Compiler := { kind := default, name := "", locals := ((ls ++ [(name, some depth, false)]).map decLocal).toArray }
+    rw [resolve_local_tie _ name c rfl]
+    have : P.resolveLocalIn c name = .ok ls.length := by
+      unfold P.resolveLocalIn
+      have hs : c.locals.size = ls.length + 1 := by simp [c]
+      rw [hs]
+      unfold P.resolveLocalIn.go
+      have hg : c.locals[ls.length]? = some (decLocal (name, some depth, false)) := by simp [c]
+      rw [hg]
+      simp [decLocal]
+    rw [this]
+    rfl
+
 example : Fns.compiler_resolve_local [("a", some 1, false), ("b", some 2, false), ("a", some 2, true)] "a" = .ok (.ok 2#8) := by rfl
 example : Fns.compiler_resolve_local [("a", some 1, false), ("a", none, false)] "a" = .ok (.error .ReadVarInInitialiser) := by rfl
 example : Fns.compiler_resolve_local [("a", some 1, false)] "z" = .ok (.error .LocalNotFound) := by rfl
@@ -276,5 +341,9 @@ example : Fns.compiler_resolve_local [("a", some 1, false)] "z" = .ok (.error .L
 #print axioms resolve_local_innermost
 #print axioms add_upvalue_spec
 #print axioms add_upvalue_tie
+#print axioms add_local_spec
+#print axioms mark_initialised_spec
+#print axioms mark_last_initialised_spec
+#print axioms declared_then_initialised_is_found
 
 end Yarel.FnsTie.Resolver
